@@ -56,6 +56,8 @@ POOL = [
                                           "::std::borrow::Cow::Borrowed(\"b\")"], NOCOPY),
     ("::core::num::NonZeroU8", ["::core::num::NonZeroU8::new(1).unwrap()", "::core::num::NonZeroU8::new(255).unwrap()"], ALL),
     ("(u8, u8, u8, u8, u8, u8, u8, u8, u8, u8, u8, u8)", ["(0, 0, 0, 0, 0, 0, 0, 0, 0, 0, 0, 0)", "(0, 0, 0, 0, 0, 0, 0, 0, 0, 0, 0, 1)"], ALL),
+    ("fn(u8) -> u8", ["(fa as fn(u8) -> u8)", "(fb as fn(u8) -> u8)"], ALL),
+    ("::core::option::Option<unsafe extern \"C\" fn(u8) -> u8>", ["::core::option::Option::None", "::core::option::Option::Some(fc as unsafe extern \"C\" fn(u8) -> u8)"], ALL),
     ("::core::time::Duration", ["::core::time::Duration::from_secs(0)", "::core::time::Duration::from_millis(1500)"], ALL),
 ]
 
@@ -69,7 +71,7 @@ MODES = {
 }
 
 
-def gen(seed, prop, k, mode):
+def gen(seed, prop, k, mode, sweep=None):
     rng = rng_for(seed, prop, "twin", k)
     kind = rng.choice(["struct", "enum", "enum"])
     nv = 1 if kind == "struct" else rng.randint(1, 4)
@@ -81,7 +83,16 @@ def gen(seed, prop, k, mode):
         fields = [rng.choice(POOL) for _ in range(nf)]
         used += fields
         variants.append((style, fields))
+    if sweep is not None:
+        # one definition per pool type: a struct (even k) or a two-variant enum (odd k) around exactly that type
+        u8 = next(p for p in POOL if p[0] == "(u8,)")
+        kind = "struct" if k % 2 == 0 else "enum"
+        variants = [(rng.choice(["named", "tuple"]), [u8, sweep, u8])] + ([("tuple", [sweep])] if kind == "enum" else [])
+        used = [u8, sweep]
     want = list(MODES[mode])
+    if mode == "ord" and (rng.random() < 0.3 or (sweep is not None and k % 4 < 2)):
+        # PartialOrd without Ord (its own handler)
+        want = ["PartialEq", "PartialOrd"]
     caps = set(ALL)
     for _, _, c in used:
         caps &= c
@@ -145,9 +156,10 @@ def gen(seed, prop, k, mode):
 def gen_from(prop, cid, text_e, text_d, ctors, traits, kind, types):
     n = len(ctors)
     arms = "".join("            %d => %s,\n" % (i, c) for i, c in enumerate(ctors))
-    glue = ("pub static DATA: [u8; 4] = [1, 2, 3, 4];\npub static TEXT: &str = \"abcd\";\npub static R0: &u8 = &7;\npub static R1: &u8 = &9;\n"
-            "pub mod e {\n    #![allow(unknown_lints, ambiguous_wide_pointer_comparisons)]\n    use super::*;\n%s}\n"
-            "pub mod d {\n    #![allow(unknown_lints, ambiguous_wide_pointer_comparisons)]\n    use super::*;\n%s}\n"
+    glue = ("pub fn fa(x: u8) -> u8 { x }\npub fn fb(x: u8) -> u8 { x.wrapping_mul(3) }\npub unsafe extern \"C\" fn fc(x: u8) -> u8 { x ^ 1 }\n"
+            "pub static DATA: [u8; 4] = [1, 2, 3, 4];\npub static TEXT: &str = \"abcd\";\npub static R0: &u8 = &7;\npub static R1: &u8 = &9;\n"
+            "pub mod e {\n    #![allow(unknown_lints, ambiguous_wide_pointer_comparisons, unpredictable_function_pointer_comparisons)]\n    use super::*;\n%s}\n"
+            "pub mod d {\n    #![allow(unknown_lints, ambiguous_wide_pointer_comparisons, unpredictable_function_pointer_comparisons)]\n    use super::*;\n%s}\n"
             "macro_rules! mk { ($m:ident, $i:expr) => { match $i {\n%s            _ => unreachable!(),\n        } } }\n"
             % (text_e, text_d, arms))
     checks = []
@@ -218,6 +230,13 @@ def cases(seed, prop, n, mode):
         c = gen(seed, prop, k, mode)
         if c is not None:
             out.append(c)
+    k = 100000
+    for t in POOL:
+        for rep in range(4 if mode == "ord" else 2):
+            c = gen(seed, prop, k, mode, sweep=t)
+            k += 1
+            if c is not None:
+                out.append(c)
     return out
 
 
